@@ -2,7 +2,8 @@
    Only statements closed by [exact]; models and proofs live in C03/. *)
 From Coq Require Import ZArith QArith List Bool Permutation.
 From PV Require Import Base.CasesLib C03.ExecModel C03.ExecProofs C03.ExecReplay C03.ExecRefute
-  C03.ProjectModel C03.ProjectProofs C03.ProjectReplay.
+  C03.ProjectModel C03.ProjectProofs C03.ProjectReplay C03.ProjectNFold
+  C03.DensityModel C03.DensityProofs C03.DensityReplay.
 Import ListNotations.
 Open Scope Z_scope.
 
@@ -193,6 +194,89 @@ Example C03_nonvacuous_unnormalised :
          (run_steps 2 psi [PPost [0%nat] [0%nat]; PMeasure [1%nat]])
      = [([1]%nat, 1#4)]%Q.
 Proof. vm_compute. split; reflexivity. Qed.
+
+(* ------------------------------------------------------------------ k measurements = one *)
+(* from ANY reachable branch (any register without repetitions, any positive scale, any vector
+   with non-zero listed amplitudes): measuring L1 and then L2 gives exactly the branches of the
+   joint measurement of L1 ++ L2 (same outcome, vector, register; equal weight and scale) *)
+Theorem C03_two_step_from_branch : forall (A : Type) (nrm : A -> Q) (b : pbranch A) L1 L2,
+  good A nrm b -> incl L1 (pb_reg A b) ->
+  incl L2 (filter (fun m => negb (memb m L1)) (pb_reg A b)) ->
+  equiv A (measure A nrm L2 (measure_branch A nrm L1 b)) (measure_branch A nrm (L1 ++ L2) b).
+Proof. exact two_step_from_branch. Qed.
+Print Assumptions C03_two_step_from_branch.
+
+(* the chain rule in full: for every state, every d and every non-empty list of pairwise
+   disjoint mode lists L1, ..., Lk below d (any order within and between), measuring them one
+   after another gives the same outcome-weight map, branch vectors, scales and registers as
+   measuring L1 ++ ... ++ Lk at once -- by induction over k *)
+Theorem C03_nfold_sequential_eq_joint : forall (A : Type) (nrm : A -> Q) d (psi : pstate A) Ls,
+  positive A nrm psi -> Ls <> [] -> disjoint_in (seq 0 d) Ls ->
+  equiv A (measure_seq A nrm Ls (pinitial A d psi)) (measure_seq A nrm [concat Ls] (pinitial A d psi)).
+Proof. exact nfold_sequential_eq_joint. Qed.
+Print Assumptions C03_nfold_sequential_eq_joint.
+
+Theorem C03_nfold_from_branch : forall (A : Type) (nrm : A -> Q) n Ls (b : pbranch A),
+  (length Ls <= n)%nat -> Ls <> [] -> good A nrm b -> disjoint_in (pb_reg A b) Ls ->
+  equiv A (measure_seq A nrm Ls [b]) (measure_seq A nrm [concat Ls] [b]).
+Proof. exact nfold_from_branch. Qed.
+Print Assumptions C03_nfold_from_branch.
+
+(* ------------------------------------------------------------------ mixed states (FockSimulator) *)
+(* the block of a block is the block of the joint outcome: the branch state of a second
+   measurement is the projection of the ORIGINAL density matrix *)
+Theorem C03_density_block_of_block : forall (A : Type) d M1 M2 s1 s2 (rho : dstate A),
+  incl M2 (aux M1 d) -> length s1 = length M1 ->
+  dproject A (length (aux M1 d)) (remap_modes (aux M1 d) M2) s2 (dproject A d M1 s1 rho)
+  = dproject A d (M1 ++ M2) (s1 ++ s2) rho.
+Proof. exact dproject_dproject. Qed.
+Print Assumptions C03_density_block_of_block.
+
+(* p(s) = sum of the diagonal of the block; the weights of the outcomes sum to the trace *)
+Theorem C03_density_weights_sum_trace : forall (A : Type) (tr : A -> Q) d M (rho : dstate A),
+  dwf A d rho ->
+  (gsum (fun s => dtrace A tr (dproject A d M s rho)) (doutcomes A M rho) == dtrace A tr rho)%Q.
+Proof. exact dweights_sum_trace. Qed.
+Print Assumptions C03_density_weights_sum_trace.
+
+Theorem C03_density_branch_weights_sum : forall (A : Type) (tr : A -> Q) L (b : dbranch A),
+  dwf A (length (db_reg A b)) (db_rho A b) ->
+  (sumQ (map (db_freq A) (dmeasure_branch A tr L b)) == dbranch_trace A tr b * db_freq A b)%Q.
+Proof. exact dmeasure_branch_weights_sum. Qed.
+Print Assumptions C03_density_branch_weights_sum.
+
+(* chain rule for mixed states, from any branch: p(s1) p(s2|s1) = p(s1 ++ s2), same block,
+   same register, equal scale (outcomes of non-zero probability) *)
+Theorem C03_density_two_step : forall (A : Type) (tr : A -> Q) (b : dbranch A) L1 L2 s1 s2,
+  NoDup (db_reg A b) -> incl L1 (db_reg A b) ->
+  incl L2 (filter (fun m => negb (memb m L1)) (db_reg A b)) ->
+  length s1 = length L1 ->
+  ~ (db_scale A b == 0)%Q ->
+  ~ (dtrace A tr (dproject A (length (db_reg A b)) (remap_modes (db_reg A b) L1) s1 (db_rho A b)) == 0)%Q ->
+  ~ (dtrace A tr (dproject A (length (db_reg A b)) (remap_modes (db_reg A b) (L1 ++ L2)) (s1 ++ s2) (db_rho A b)) == 0)%Q ->
+  dsame A (dchild A tr L2 (dchild A tr L1 b s1) s2) (dchild A tr (L1 ++ L2) b (s1 ++ s2)).
+Proof. exact dtwo_step_child. Qed.
+Print Assumptions C03_density_two_step.
+
+(* non-vacuity: rho = 1/2 |1,0><1,0| + 1/4 |0,1><0,1| (trace 3/4): measuring mode 0 gives the
+   weights 1/2 and 1/4, each branch matrix rescaled to trace 1 *)
+Example C03_nonvacuous_density :
+  let rho : qdstate := [(([1;0], [1;0])%nat, (1#2, 0)); (([0;1], [0;1])%nat, (1#4, 0))]%Q in
+  map (fun b => (db_out Qi b, Qred (db_freq Qi b), Qred (dbranch_trace Qi qtr b))) (run_dens 2 rho [[0%nat]])
+  = [([1]%nat, 1#2, 1); ([0]%nat, 1#4, 1)]%Q.
+Proof. vm_compute. reflexivity. Qed.
+
+(* non-vacuity of the k-fold statement: three single-mode measurements of a 3-mode state *)
+Example C03_nonvacuous_nfold :
+  let psi : qstate := [([1;0;2]%nat, (3#5, 0)); ([0;1;1]%nat, (0, 4#5))]%Q in
+  disjoint_in (seq 0 3) [[2%nat]; [0%nat]; [1%nat]] /\
+  map (fun b => (pb_out Qi b, Qred (pb_freq Qi b))) (run_proj 3 psi [[2%nat]; [0%nat]; [1%nat]])
+  = map (fun b => (pb_out Qi b, Qred (pb_freq Qi b))) (run_proj 3 psi [[2%nat; 0%nat; 1%nat]]).
+Proof.
+  split.
+  - simpl. repeat split; intros x [<-|[]]; simpl; auto.
+  - vm_compute. reflexivity.
+Qed.
 
 (* refuted on the tree as found (finite witnesses) *)
 Theorem C03_get_counts_overwrite_refuted :
